@@ -26,13 +26,18 @@ def bounds(tier):
     q = tier == "quick"
     return {"dag": "W-DAG(n<=4)" if q else "W-DAG(n<=5)", "cyclic": "W-DIG(n<=4, arcs<=6)+W-NAMED" if q else "W-DIG(n<=4, arcs<=8)+W-NAMED",
             "ignored_sets_width": "all subsets (|E|<=6) else size<=2", "ignored_sets_models": "size<=1" if q else "size<=2",
-            "additional_start_end": "none + first inner node as start / as end" if q else "none + every single inner node as start / as end"}
+            "additional_start_end": "none + first inner node as start / as end" if q else "none + every single inner node as start / as end",
+            "bottleneck_graphs": "B(p,q), (p,q) in {(2,2),(2,3),(3,3),(3,4)}" + ("" if q else " + (4,4),(4,5)") + ", natural source/sink and start=end=g; oracle = explicit witness walk (optimum 1)"}
 
 
 def cases(tier, seed):
     q = tier == "quick"
     dags = world.dag_shapes(4 if q else 5)
     cyc = world.dig_shapes(4, 6 if q else 8) + world.named_shapes() + ([] if q else [x for x in world.dig_shapes(5, 6, selfloops=False) if x[0] == 5 and not world.is_acyclic(*x)])
+    # bottleneck graphs (witness oracle): one walk has to pass one arc p*q times
+    for (p_, q_) in ((2, 2), (2, 3), (3, 3), (3, 4)) + (() if q else ((4, 4), (4, 5))):
+        for natural in (True, False):
+            yield bottleneck_case(p_, q_, natural)
     seen = set()
     for fam, shapes in (("dag", dags), ("cyc", cyc)):
         for idx, shp in enumerate(shapes):
@@ -53,6 +58,66 @@ def cases(tier, seed):
                     yield dict(base, cover_type=ct, starts=st, ends=en)
 
 
+def bottleneck_case(p, q, natural):
+    """B(p,q): every round trip through the strongly connected component passes the single arc g->h:
+    g -> h -> a_i -> b_j -> g with the complete bipartite set a_i -> b_j. ONE walk covers everything, but it has to pass g->h
+    p*q times - more often than the graph has nodes once p*q > p+q+4. Returns the case and a witness walk."""
+    A = [f"a{i}" for i in range(p)]
+    B = [f"b{j}" for j in range(q)]
+    arcs = [("g", "h")] + [("h", a) for a in A] + [(a, b) for a in A for b in B] + [(b, "g") for b in B]
+    nodes = ["g", "h"] + A + B
+    walk = []
+    if natural:
+        arcs = [("s", "g")] + arcs + [("g", "t")]
+        nodes = ["s"] + nodes + ["t"]
+        walk.append("s")
+    for a in A:
+        for b in B:
+            walk += ["g", "h", a, b]
+    walk.append("g")
+    if natural:
+        walk.append("t")
+    case = {"fam": "cyc", "nodes": nodes, "arcs": [[u, v, 1] for u, v in arcs], "cover_type": "edge",
+            "starts": [] if natural else ["g"], "ends": [] if natural else ["g"], "bottleneck": [p, q, natural], "witness": walk}
+    return case
+
+
+def _run_bottleneck(case):
+    import flowpaths as fp
+    viol, nt, tags = [], [], collections.Counter()
+    E = [(a[0], a[1]) for a in case["arcs"]]
+    w = case["witness"]
+    used = set(zip(w[:-1], w[1:]))
+    assert used == set(E) and all(e in set(E) for e in used), "witness walk does not cover the bottleneck graph"  # oracle self-check: optimum == 1
+    G = drivers.build_graph(case)
+    kw = {"cover_type": "edge", "additional_starts": case["starts"], "additional_ends": case["ends"]}
+    ctx0 = f"B{tuple(case['bottleneck'])} ({len(case['nodes'])} nodes, {len(E)} arcs; one walk covers it passing g->h {case['bottleneck'][0] * case['bottleneck'][1]} times)"
+    try:
+        st = fp.stDiGraph(G, additional_starts=case["starts"], additional_ends=case["ends"])
+        wd = st.get_width(list(st.source_sink_edges))
+        if wd != 1:
+            viol.append({"kind": "width_mismatch", "msg": f"{ctx0}: get_width = {wd}, the witness walk shows 1"})
+    except Exception as ex:  # noqa
+        viol.append({"kind": "width_exception", "msg": f"{ctx0}: get_width raised {drivers.common.exc_str(ex)}"})
+    for cls_, kk in (("kPathCoverCycles", {"k": 1}), ("MinPathCoverCycles", {})):
+        o = drivers.observe(dict(case, cls=cls_, kw=dict(kw, **kk)), G)
+        tags[cls_] += 1
+        if o["exc"]:
+            viol.append({"kind": "min_cover_exception", "msg": f"{ctx0}: {cls_} raised {o['exc']}"})
+        elif not o["solved"]:
+            viol.append({"kind": "k_cover_feasibility" if kk else "min_cover_unsolved", "msg": f"{ctx0}: {cls_}({kk}) is not solved although one walk covers every arc"})
+        else:
+            routes = o["sol"].get("walks")
+            errs = preds.route_errors(case, routes, True, case["starts"], case["ends"]) + preds.cover_errors(case, routes, "edge", [])
+            if errs:
+                viol.append({"kind": "min_cover_invalid", "msg": f"{ctx0}: {cls_}: {errs[0]}", "routes": routes})
+            elif len(routes) != 1:
+                viol.append({"kind": "min_cover_not_minimum", "msg": f"{ctx0}: {cls_} returned {len(routes)} walks; one walk covers every arc", "routes": routes})
+            else:
+                nt.append(f"bottleneck|{case['bottleneck']}|{cls_}")
+    return {"v": viol, "nt": nt, "tags": dict(tags), "out": "cyc:bottleneck:" + ("viol" if viol else "ok"), "states": 0, "transitions": 0}
+
+
 def expanded(case):
     """independent node expansion: v -> (v|in, v|out); returns STGraph over the expansion and the node arcs"""
     nodes = []
@@ -68,6 +133,8 @@ def expanded(case):
 
 def run(case):
     import flowpaths as fp
+    if case.get("bottleneck"):
+        return _run_bottleneck(case)
     viol = []
     nt = []
     tags = collections.Counter()
